@@ -60,10 +60,10 @@ impl Property for C09 {
         "C09"
     }
     fn rule(&self) -> String {
-        "Cases: ordered pairs (a,b) of operands of any two zoo types/lengths/provenances, with b related to a (independent, equal value at another length, a+-1, 2^m-a, exactly one bit flipped), and lists of same-type vectors to be sorted. Checked: ==,!=,<,<=,>,>=,partial_cmp in BOTH operand orders for the type pairing, Ord::cmp for same-type pairs, reflexivity of each operand, mutual consistency; sort() output non-decreasing by value and a permutation of the input. Enumerated: all (n,a,m,b) n,m<=3 (quick)/<=6 (thorough) x 18x18 pairings. Oracle: numeric comparison of the zero-extended bit lists. Non-trivial: lengths differ, or values unequal but identical in their most significant non-zero storage word of the wider word type (decision falls to a lower word); equal values of different length are a counted class. Distinct by hash of the case.".into()
+        "Cases: ordered pairs (a,b) of operands of any two zoo types/lengths/provenances, with b related to a (independent, equal value at another length, a+-1, 2^m-a, exactly one bit flipped), and lists of same-type vectors to be sorted. Checked: ==,!=,<,<=,>,>=,partial_cmp in BOTH operand orders for the type pairing, Ord::cmp for same-type pairs, reflexivity of each operand, mutual consistency; sort() output non-decreasing by value and a permutation of the input. Enumerated: all (n,a,m,b) n,m<=3 (quick)/<=7 (thorough) x 19x19 pairings. Oracle: numeric comparison of the zero-extended bit lists. Non-trivial: lengths differ, or values unequal but identical in their most significant non-zero storage word of the wider word type (decision falls to a lower word); equal values of different length are a counted class. Distinct by hash of the case.".into()
     }
     fn random_cases(&self, tier: Tier) -> u64 {
-        tier.pick(300000, 1200000)
+        tier.pick(300000, 9600000)
     }
     fn strategy(&self, tier: Tier) -> BoxedStrategy<C09Case> {
         let lmax = lmax_dyn(tier);
@@ -92,10 +92,13 @@ impl Property for C09 {
         prop_oneof![9 => pair, 1 => sort].boxed()
     }
     fn exhaustive_subspaces(&self, tier: Tier) -> Vec<String> {
-        vec![format!("all values of both operands for all lengths n,m<={} x 18x18 ordered type pairings (all comparison operators, both operand orders)", tier.pick(3, 6))]
+        vec![
+            format!("all values of both operands for all lengths n,m<={} x 19x19 ordered type pairings (all comparison operators, both operand orders)", tier.pick(3, 7)),
+            "Bv/Bvd/Bvf<u64,2> pairs: lengths {1,5,63,64,65,100,128}^2 x provenance {canonical, spare 64, spare 200, long-then-truncated}^2 x {equal, low bit differs, top bit differs} x 3 values".into(),
+        ]
     }
     fn enumerate(&self, tier: Tier, sh: &mut Shard, f: &mut dyn FnMut(C09Case) -> bool) {
-        let k = tier.pick(3, 6);
+        let k = tier.pick(3, 7);
         for lt in 0..NT {
             for rt in 0..NT {
                 for n in 0..=k {
@@ -107,6 +110,38 @@ impl Property for C09 {
                             for b in all_values(m) {
                                 if !f(C09Case::Pair { a: Operand::canon(lt, a.clone()), b: Operand::canon(rt, b.clone()) }) {
                                     return;
+                                }
+                            }
+                        }
+                    }
+                }
+            }
+        }
+        // same value held with different length / spare capacity / Bv storage mode, all orders
+        for (lt, rt) in [(TID_A, TID_A), (TID_D, TID_D), (TID_A, TID_D), (TID_D, TID_A), (TID_A, 10u8), (10u8, TID_A)] {
+            if !sh.mine() {
+                continue;
+            }
+            let provs = [Prov::Canon, Prov::Spare(200), Prov::LongThenTrunc(200), Prov::Spare(64)];
+            for n in [1usize, 5, 63, 64, 65, 100, 128] {
+                for m in [1usize, 5, 63, 64, 65, 100, 128] {
+                    for pa in &provs {
+                        for pb in &provs {
+                            let k = n.min(m);
+                            for v in [Bits::ones(k), Bits::from_u128(1, k), realize_val(&ValPat::Alt(true), k, 8)] {
+                                let a = v.zext(n);
+                                let mut variants = vec![v.zext(m)];
+                                let mut low = v.zext(m);
+                                low.0[0] = !low.0[0];
+                                variants.push(low);
+                                let mut top = v.zext(m);
+                                top.0[m - 1] = !top.0[m - 1];
+                                variants.push(top);
+                                for b in variants {
+                                    let c = C09Case::Pair { a: Operand { ty: lt, bits: a.clone(), prov: pa.clone() }, b: Operand { ty: rt, bits: b, prov: pb.clone() } };
+                                    if !f(c) {
+                                        return;
+                                    }
                                 }
                             }
                         }
